@@ -23,9 +23,13 @@ typedef LAFEM::SparseMatrixBCSR<double, Index, 2, 2> MatBCSR;
 typedef LAFEM::SparseMatrixBCSR<double, Index, 2, 1> TMatBCSR;
 typedef LAFEM::UnitFilterBlocked<double, Index, 2> FilBCSR;
 typedef LAFEM::Transfer<LAFEM::SparseMatrixBWrappedCSR<double, Index, 2>> TraBCSR;
+template class Solver::MultiGridLevelStd<MatBCSR, FilBCSR, TraBCSR>;
+template class Solver::MultiGridHierarchy<MatBCSR, FilBCSR, TraBCSR>;
 template class Solver::MultiGrid<MatBCSR, FilBCSR, TraBCSR>;
 typedef LAFEM::SparseMatrixCSR<float, unsigned int> MatCSRf;
 typedef LAFEM::NoneFilter<float, unsigned int> FilCSRf;
 typedef LAFEM::Transfer<MatCSRf> TraCSRf;
+template class Solver::MultiGridLevelStd<MatCSRf, FilCSRf, TraCSRf>;
+template class Solver::MultiGridHierarchy<MatCSRf, FilCSRf, TraCSRf>;
 template class Solver::MultiGrid<MatCSRf, FilCSRf, TraCSRf>;
 #endif
